@@ -74,6 +74,17 @@ func TestC08(t *testing.T) {
 				if obs == "PANIC" {
 					obs = "root=PANIC"
 				}
+				// ... and the root of the tree-backed view of the same value (not for bool
+				// sequences: known finding D3, reported under C01)
+				if !ty.HasBoolSeq() {
+					obs += " " + guard(func() string {
+						vw, err := buildView(ty, v)
+						if err != nil {
+							return "vroot=ERR"
+						}
+						return "vroot=" + rootHex(vw.HashTreeRoot(h))
+					})
+				}
 				out.emit("flat", "c08", []string{cfg, ty.Sexp(), v.Sexp()}, obs)
 			}
 			// the uint8 helpers (callback form) on the same packing boundaries
